@@ -9,7 +9,7 @@ vars == <<tid, l, tsk, sco, now, anycancel, bad>>
 \*   res: outcome handed to awaiters (<<>> unknown, <<"ok">>, or the exception)
 \*   pre: cancelled before any of its code ran     pend: time of a cancel() while suspended, or -1
 NoTask == [s |-> 0, started |-> FALSE, ended |-> FALSE, how |-> "", exc |-> <<>>, rank |-> 0, fin |-> "",
-           res |-> <<>>, pre |-> FALSE, pend |-> 0, haspend |-> FALSE, tstart |-> 0, d0 |-> FALSE]
+           res |-> <<>>, pre |-> FALSE, pend |-> 0, haspend |-> FALSE, tstart |-> 0, d0 |-> FALSE, sawct |-> FALSE, asleep |-> 0, must |-> FALSE]
 NoScope == [owner |-> 0, kind |-> "", cause |-> FALSE]
 Init == /\ tid \in 1..N /\ l = 1 /\ bad = "" /\ now = 0 /\ anycancel = FALSE
         /\ tsk = [k \in Ids |-> NoTask] /\ sco = [s \in Ids |-> NoScope]
@@ -25,6 +25,7 @@ Step ==
   /\ l' = l + 1 /\ UNCHANGED tid
   /\ LET e == Traces[tid][l] a == F(e, "a", 0) op == F(e, "op", "") t == F(e, "t", now)
          late == {k \in Ids : tsk[k].haspend /\ ~tsk[k].ended /\ tsk[k].pend < t} IN
+     \* (haspend is cleared as soon as the cancellation has been raised inside the task: see the "u"/"g" cases)
      /\ now' = t
      /\ anycancel' = (anycancel \/ (e.e = "b" /\ op = "cancel"))
      /\ IF e.e = "fin"
@@ -35,7 +36,11 @@ Step ==
         ELSE IF late # {} THEN Fail("C06.cancel_not_prompt")
         ELSE IF a \in Ids /\ tsk[a].pre /\ e.e \in {"b", "r", "x", "p", "u", "end"} THEN Fail("C06.ran_after_precancel")
         ELSE
-        LET tk1 == IF a \in Ids /\ tsk[a].s # 0 THEN [tsk EXCEPT ![a].started = TRUE] ELSE tsk IN
+        LET tk0 == IF a \in Ids /\ tsk[a].s # 0 THEN [tsk EXCEPT ![a].started = TRUE] ELSE tsk
+            \* asleep: the date until which the task sleeps (it cannot run before that date on its own)
+            tk1 == IF a \in Ids /\ tsk[a].s # 0 /\ e.e = "b" /\ op = "sleep" THEN [tk0 EXCEPT ![a].asleep = t + e.d]
+                   ELSE IF a \in Ids /\ tsk[a].s # 0 /\ e.e \in {"r", "x", "u"} /\ op = "sleep" THEN [tk0 EXCEPT ![a].asleep = 0]
+                   ELSE tk0 IN
         CASE e.e = "b" /\ op = "open" ->
                /\ sco' = [sco EXCEPT ![e.s] = [owner |-> a, kind |-> e.kind, cause |-> FALSE]] /\ tsk' = tk1 /\ UNCHANGED bad
           [] e.e = "b" /\ op = "do" /\ e.k # 0 ->
@@ -53,7 +58,8 @@ Step ==
                               THEN [tk1 EXCEPT ![k].pre = TRUE, ![k].res = <<"tcancelled", k>>]
                          ELSE IF ~tk1[k].started THEN tk1
                          ELSE IF tsk[k].haspend THEN tk1
-                         ELSE [tk1 EXCEPT ![k].pend = t, ![k].haspend = TRUE]
+                         \* a task that sleeps beyond now cannot end on its own in this time step: it must end cancelled
+                         ELSE [tk1 EXCEPT ![k].pend = t, ![k].haspend = TRUE, ![k].must = (tsk[k].asleep > t /\ k # a)]
                /\ UNCHANGED <<sco, bad>>
           [] e.e = "end" /\ a \in Ids /\ tsk[a].s # 0 ->
                LET k == a
@@ -62,6 +68,10 @@ Step ==
                           ELSE IF e.how = "closed" THEN <<"tclosed", k>> ELSE e.exc IN
                \* (a clean-up handler that raises while the task is closed reports a second, final end)
                IF tsk[k].ended /\ ~(tsk[k].how = "closed" /\ e.how = "failed") THEN Fail("C06.ended_twice")
+               \* once its cancellation was raised inside it, the task ends cancelled (only a privileged failure or a forced close may override)
+               ELSE IF (tsk[k].sawct \/ tsk[k].must) /\ e.how \notin {"cancelled", "closed"}
+                       /\ ~(e.how = "failed" /\ e.exc # <<>> /\ e.exc[1] = "exc" /\ e.exc[3] = "Assert")
+                    THEN Fail("C06.cancellation_lost")
                ELSE IF tsk[k].res # <<>> /\ tsk[k].res # exp /\ ~(e.how = "closed" /\ tsk[k].res[1] = "tclosed")
                     THEN Fail("C06.result_changed")
                ELSE /\ tsk' = tk2
@@ -94,6 +104,13 @@ Step ==
                \* a plain Scope that is not left gracefully needs a cause other than a cancelled child
                IF sco[e.id].kind = "scope" /\ ~(e.e = "r" /\ op = "leave") /\ ~sco[e.id].cause
                THEN Fail("C06.cancel_hit_parent") ELSE tsk' = tk1 /\ UNCHANGED <<sco, bad>>
+          [] e.e = "u" /\ a \in Ids /\ e.exc # <<>> /\ e.exc[1] = "ct" /\ e.exc[2] = a /\ F(e, "blk", "") # "scope" ->
+               \* the cancellation has been raised inside the task at its suspension point
+               /\ sco' = [s \in Ids |-> IF sco[s].owner = a THEN [sco[s] EXCEPT !.cause = TRUE] ELSE sco[s]]
+               /\ tsk' = [tk1 EXCEPT ![a].sawct = TRUE, ![a].haspend = FALSE] /\ UNCHANGED bad
+          [] e.e = "g" /\ a \in Ids ->
+               \* the task's handler caught the cancellation and shuts down gracefully
+               /\ tsk' = [tk1 EXCEPT ![a].sawct = TRUE, ![a].haspend = FALSE] /\ UNCHANGED <<sco, bad>>
           [] e.e = "u" /\ a \in Ids /\ e.exc # <<>> /\ e.exc[1] \in {"ct", "genexit", "cs", "ci"} ->
                \* a signal passing through the owner's code is a cause for its open scopes
                /\ sco' = [s \in Ids |-> IF sco[s].owner = a THEN [sco[s] EXCEPT !.cause = TRUE] ELSE sco[s]]
